@@ -125,6 +125,7 @@ theorem aliasN_live (p : List Seg) : ∀ (n : Node) (v : Val),
               have h3 : ¬ (ch.ptr = true ∧ fv.isNilPtr = true) := by
                 intro hc; simp [hc.1, hc.2] at h2
               rw [if_neg h3, hlive]
+              rfl
             · simp only [hl, Bool.false_eq_true, if_false] at h ⊢
               have hokc : AliasOK ch = true :=
                 AliasOKs_mem chld ch (by simp only [AliasOK, Bool.and_eq_true] at hok; exact hok.2) (findField_mem _ _ _ _ _ hff)
